@@ -941,7 +941,11 @@ func (m *Meta) LayeredOnto(latest *Meta) *Meta {
 		for i := range ti.Indexes {
 			ti.Indexes[i].UpdateWith(lti.Indexes[i])
 		}
-		ti.lastMod = m.info.Clock
+		// must be the clock of the latest state, not of this transaction's
+		// (older) snapshot, lastMod must never go backwards,
+		// otherwise a later persist can merge away the chunk
+		// that holds the current version of this item
+		ti.lastMod = latest.info.Clock
 		// ti.Check()
 		info.Put(ti)
 	}
